@@ -10,6 +10,10 @@
 (*         differ right after SuperNet(...) (the constructor leaves the    *)
 (*         layers in eval mode under a wrapper whose flag is True) and     *)
 (*         after nas.seed.train() / nas.seed.eval()                        *)
+(*   gl    'grad link': the coefficients stored in the model carry the     *)
+(*         autograd graph of the forward pass that sampled them, so that   *)
+(*         cost.backward() reaches the architectural parameters without a  *)
+(*         new forward pass (TRUE after a forward pass; PIT stores none)   *)
 (*   frz   the BatchNorm layers have been put in eval mode individually    *)
 (*         while the rest of the inner model is in training mode           *)
 (*   theta class of the sampled coefficients stored in the model           *)
@@ -27,7 +31,15 @@
 (* Calls (records, field a):                                               *)
 (*   [a |-> "export", nobn |-> BOOLEAN]    export() / export(add_bn=False) *)
 (*   [a |-> "summary"]  [a |-> "cost"]  [a |-> "getcost", n |-> "a"|"b"]   *)
-(*   [a |-> "setcs", c |-> "A"|"B"|"D"]    cost_specification = ...        *)
+(*   [a |-> "setcs", c |-> "A"|"B"|"D", how |-> "s"|"f"|"i"]               *)
+(*                                         cost_specification = a spec of  *)
+(*                                         contents c, given as the built- *)
+(*                                         in object ("s"), as a freshly   *)
+(*                                         constructed temporary object    *)
+(*                                         ("f"), or as the user's own     *)
+(*                                         object changed IN PLACE to these*)
+(*                                         contents ("i"): only the        *)
+(*                                         contents may matter             *)
 (*   [a |-> "forward"]                     forward pass on a batch         *)
 (*   [a |-> "inspect"]                     str(), named_nas_parameters(),  *)
 (*                                         named_net_parameters(), (MPS)   *)
@@ -47,6 +59,8 @@
 (*                    (F16), which for MPS also re-samples the persistent  *)
 (*                    theta_alpha buffers in eval mode (F35)               *)
 (*   impl = "f16"     pinned + the candidate repair of F16 (mode restored) *)
+(*   impl = "valuesonly" ref, except that export() restores the stored     *)
+(*                    coefficients by value only (no autograd graph)       *)
 (*   impl = "rootmode" ref, except that export() restores one flag for the *)
 (*                    whole inner model (frozen BatchNorm layers thaw)     *)
 (*   impl = "wrapmode" ref, except that export() restores the inner model  *)
@@ -105,6 +119,7 @@ SamplerOf(kind, opt) ==
 \* P = [hasbn |-> BOOLEAN, maxbn |-> Nat]
 FwdCore(kind, P, c) ==
     [c EXCEPT !.theta = IF c.samp = "none" THEN c.theta ELSE Sampled(kind, c.opt.hard, c.st),
+              !.gl    = IF kind = "pit" \/ c.samp = "none" THEN c.gl ELSE TRUE,
               !.bn    = IF c.st /\ ~c.frz /\ P.hasbn THEN Min2(c.bn + 1, P.maxbn) ELSE c.bn]
 
 RefNext(kind, P, c, a) ==
@@ -131,6 +146,9 @@ ImplNext(impl, kind, P, c, a) ==
          THEN (IF a.a \in {"cost", "getcost"} THEN [c EXCEPT !.dk = c.dk \cup {"costkeys"}] ELSE RefNext(kind, P, c, a))
     ELSE IF impl = "optreset"
          THEN (IF a.a = "export" THEN OptResetExport(kind, c) ELSE RefNext(kind, P, c, a))
+    ELSE IF impl = "valuesonly"    \* export() puts the stored coefficients back BY VALUE (graph-less copies): the autograd link
+                                   \* between the cost and the architectural parameters is gone until the next forward pass
+         THEN (IF a.a = "export" /\ kind # "pit" THEN [c EXCEPT !.gl = FALSE] ELSE RefNext(kind, P, c, a))
     ELSE IF impl = "rootmode"      \* export() restores ONE flag for the whole inner model: individually frozen layers thaw
          THEN (IF a.a = "export" THEN [c EXCEPT !.frz = FALSE] ELSE RefNext(kind, P, c, a))
     ELSE IF impl = "wrapmode"      \* export() puts the inner model in the mode of the WRAPPER, not in the mode it had
@@ -145,7 +163,7 @@ Enabled(kind, cs, a) ==
     /\ (a.a = "export" /\ a.nobn => kind = "pit")
     /\ (a.a = "cost" => cs # "D")
     /\ (a.a = "getcost" => cs = "D")
-    /\ (a.a = "setcs" => a.c # cs)
+    /\ (a.a = "setcs" => a.c # cs /\ (a.how = "i" => a.c # "D"))
     /\ (a.a = "upd" => a.o \in OptNames(kind))
 
 (***************************************************************************)
